@@ -115,12 +115,15 @@ CHECKS = {
          "(codes 60-64), including all intermediate states of multi-record messages and simultaneous expiries. One open known finding "
          "(shared cache replayed by every browser) is reported as KNOWN-FINDING.",
          "DESIGN.md section 4 (C14/C15/C19)", "Rocq proof (handler level) + reference-cache acceptor on implementation traces + differential correspondence"),
- "C19": ("Theorems (Properties_C19.v, partial, handler level): the browse question is one PTR question for the type listing exactly the "
-         "cached PTRs of that name and re-arms a timer of at most 60 s (period read from browser.cpp); a refresh warning makes the "
-         "browser ask for that record's name and type. Timeliness over whole histories (period, follow-up SRV+TXT questions, refresh "
-         "instants at 50/85/90/95 % + 0..19 ms, enumerate-all batching within 100 ms) is decided per run by mon_browser (codes 70-74) "
-         "over virtual durations of hours.",
-         "DESIGN.md section 4 (C14/C15/C19)", "Rocq proof (handler level) + timing acceptor on implementation traces under virtual time + differential correspondence"),
+ "C19": ("Theorems (Properties_C19.v, over BrowserTimers.v): C19_question_timer_always_armed - in every state the virtual-time kernel reaches "
+         "from the empty world (any messages, API calls creating any number of browsers and caches, clock advances, timers firing at or "
+         "after their deadline) a created browser has its question timer in the table with deadline = instant of its latest browse "
+         "question + the period read from browser.cpp (<= 60 s): no handler stops, loses or postpones it; C19_question_timer_runs - the "
+         "same after every script of the executable model; C19_question_timer_fires - firing sends one PTR question for the type listing "
+         "exactly the cached PTRs of that name and re-arms; C19_refresh_warning_slots - a refresh warning reaches every browser attached "
+         "to the cache, each asking for the record's name and type. Follow-up SRV+TXT questions, refresh instants at 50/85/90/95 % + "
+         "0..19 ms and enumerate-all batching within 100 ms are decided per run by mon_browser (codes 70-74) over virtual durations of hours.",
+         "DESIGN.md section 4 (C15/C19)", "Rocq invariant proof over all kernel-reachable states of the browser model + timing acceptor on implementation traces under virtual time + differential correspondence"),
  "C20": ("Theorem C20_values (Properties_C20.v): for every program of construction, copy, assignment (incl. self-assignment), every "
          "setter (incl. Bitmap::setData with the bitmap's own data()), comparison, reading and destruction, the model of bitmap.cpp on "
          "an abstract heap never reads or frees a block it does not own (no fault, no double free) and prints exactly what the pure "
